@@ -102,7 +102,56 @@ func short(v any) string {
 	return s
 }
 
-// enumPaths calls fn for every path array of length 0..maxLen over the alphabet.
+// keyRunes: every ASCII character, and the characters of other scripts that a
+// careless identifier test lets through: characters that case-fold to an ASCII
+// letter (long s, Kelvin, Angstrom, dotted/dotless i), letters and digits of
+// other scripts and widths (\pL / \pN / \w look-alikes), combining marks, format
+// characters, line separators, the replacement character and an astral letter.
+func keyRunes() []rune {
+	var rs []rune
+	for c := rune(0); c < 128; c++ {
+		rs = append(rs, c)
+	}
+	rs = append(rs, 0x7f, 0x80, 0xa0, 0xaa, 0xb5, 0xba, 0xc5, 0xdf, 0xe5, 0xe9, 0x130, 0x131, 0x17f, 0x1c5, 0x2b0, 0x301, 0x3a9, 0x3c9,
+		0x430, 0x5d0, 0x660, 0x663, 0x966, 0x1e9e, 0x200b, 0x200d, 0x2028, 0x2029, 0x203f, 0x2054, 0x2118, 0x212a, 0x212b, 0x2160, 0x216b,
+		0x3042, 0x4e00, 0xfe33, 0xfeff, 0xff10, 0xff21, 0xff3f, 0xff41, 0xfffd, 0x10400, 0x1d7ce, 0x1f600)
+	return rs
+}
+
+// keyGridPaths: for every key rune c the keys c, ac, ca, a_c1, _c (so that c is
+// the first character, a later character and the whole key) in the path shapes
+// [k], ["a",k], [0,k], [k,0], [k,"b"]; and every ordered pair of ASCII class representatives
+// (all punctuation, NUL, tab, newline, DEL, first/last digit and letter of each case) as a key.
+func keyGridPaths(fn func(p []any) bool) {
+	for _, c := range keyRunes() {
+		cs := string(c)
+		for _, k := range []string{cs, "a" + cs, cs + "a", "a_" + cs + "1", "_" + cs, "A" + cs + "Z"} {
+			for _, p := range [][]any{{k}, {"a", k}, {0, k}, {k, 0}, {k, "b"}} {
+				if !fn(p) {
+					return
+				}
+			}
+		}
+	}
+	var reps []rune
+	for c := rune(0); c < 128; c++ {
+		switch {
+		case c < 32 && c != 0 && c != '\n' && c != '\t', c > '0' && c < '9', c > 'a' && c < 'z', c > 'A' && c < 'Z':
+		default:
+			reps = append(reps, c)
+		}
+	}
+	for _, a := range reps {
+		for _, b := range reps {
+			if !fn([]any{string(a) + string(b)}) {
+				return
+			}
+		}
+	}
+}
+
+// enumPaths calls fn for every path array of length 0..maxLen over the alphabet,
+// then for every path of the key grid.
 func enumPaths(maxLen int, fn func(idx int64, p []any) bool) int64 {
 	var idx int64
 	var rec func(p []any, l int) bool
@@ -121,9 +170,14 @@ func enumPaths(maxLen int, fn func(idx int64, p []any) bool) int64 {
 	}
 	for l := 0; l <= maxLen; l++ {
 		if !rec(nil, l) {
-			break
+			return idx
 		}
 	}
+	keyGridPaths(func(p []any) bool {
+		ok := fn(idx, p)
+		idx++
+		return ok
+	})
 	return idx
 }
 
